@@ -382,10 +382,13 @@ def _mult_facts(f):
             if isinstance(v, ast.Name):
                 alias[t] = v.id
             if isinstance(v, ast.Call) and dotted(v.func) in ('np.mod', 'numpy.mod') and \
-                    len(v.args) == 2 and isinstance(v.args[0], ast.Name) and v.args[0].id == t:
-                for a, b in alias.items():
-                    if b == t:
-                        facts['%s - %s' % (a, t)] = unparse(v.args[1])
+                    len(v.args) == 2:
+                if isinstance(v.args[0], ast.Name) and v.args[0].id == t:
+                    for a, b in alias.items():      # `i0 = i; i = np.mod(i, M)`
+                        if b == t:
+                            facts['%s - %s' % (a, t)] = unparse(v.args[1])
+                else:                               # `r = np.mod(x, M)`: x - r
+                    facts['%s - %s' % (unparse(v.args[0]), t)] = unparse(v.args[1])
             if isinstance(v, ast.BinOp) and isinstance(v.op, ast.Sub) and isinstance(
                     v.right, ast.Call) and dotted(v.right.func) in ('np.mod', 'numpy.mod') and \
                     len(v.right.args) == 2 and unparse(v.right.args[0]) == unparse(v.left):
